@@ -44,6 +44,18 @@ def run_program(src):
     finally:
         shutil.rmtree(d, ignore_errors=True)
 
+INLINE_PKGS = ('internal/bytealg', 'bytes')
+
+def cut_function(pkgpath, fname):
+    """the source text of a top-level function of an override package, cut out of /repo (self-contained functions only)"""
+    import glob
+    for fn in sorted(glob.glob(os.path.join(REPO, 'compiler/natives/src', pkgpath, '*.go'))):
+        if fn.endswith('_test.go'): continue
+        txt = open(fn).read()
+        m = re.search(r'^func %s\(.*?^}\n' % re.escape(fname), txt, re.S | re.M)
+        if m: return m.group(0)
+    raise NoReplay('source of %s.%s not found' % (pkgpath, fname))
+
 # Reference oracles for spec functions that name "what the upstream implementation returns": on a concrete replay they
 # are evaluated by running the upstream function natively (the host Go toolchain compiles package math unchanged).
 ORACLES = {'spec_ldexpOrig': ('math', 'Ldexp', ('f64', 'int'), 'f64')}
@@ -124,16 +136,44 @@ class NativesReplayer:
             r = m.eval(v, model_completion=True)
             tn = str(tt[tid].get('b') or tt[tid].get('s') or '')
             return ('int', (r.as_long() if tn.startswith('uint') else r.as_signed_long()) if z3.is_bv(r) else r.as_long())
+        from .values import SliceV, StrV
+        if isinstance(v, (SliceV, StrV)) and (isinstance(v, StrV) or len(v.arrs) == 1):
+            # a byte slice or a string: the bytes of the model between offset and offset + length
+            def iv(e):
+                r = m.eval(e, model_completion=True)
+                return r.as_long()
+            n, off = iv(v.len), iv(v.off)
+            if n < 0 or n > 64: raise NoReplay('model slice of length %d' % n)
+            bs = [iv(z3.Select(v.arr, off + k)) for k in range(n)]
+            if any(b < 0 or b > 255 for b in bs): raise NoReplay('model element is not a byte')
+            if isinstance(v, StrV): return ('str', bs)
+            return ('bytes', bs, bool(z3.is_true(m.eval(v.isnil, model_completion=True))), v.etid)
         raise NoReplay('parameter kind')
 
+    def bind(self, cv, t):
+        """the z3-level value of a concrete input for the evaluation of the contract"""
+        if cv[0] == 'f64': return z3.fpBVToFP(z3.BitVecVal(cv[1], 64), F64)
+        if cv[0] == 'bool': return z3.BoolVal(cv[1])
+        if cv[0] in ('str', 'bytes'):
+            from .values import SliceV, StrV
+            arr = z3.K(z3.IntSort(), z3.IntVal(0))
+            for k, b in enumerate(cv[1]): arr = z3.Store(arr, k, z3.IntVal(b))
+            n = z3.IntVal(len(cv[1]))
+            if cv[0] == 'str': return StrV(arr, z3.IntVal(0), n)
+            return SliceV([arr], z3.IntVal(0), n, n, cv[3], z3.BoolVal(False))
+        return self.intval(cv[1], t)
+
     def show(self, cv):
+        if cv[0] in ('str', 'bytes'): return str(cv[1])
         if cv[0] == 'f64': return '%r (bits 0x%016x)' % (struct.unpack('<d', struct.pack('<Q', cv[1]))[0], cv[1])
         return str(cv[1])
 
     def golit(self, c, tid):
-        tn = self.v.tt[tid].get('b') or self.v.tt[tid]['s']
+        tn = self.v.tt[tid].get('b') or self.v.tt[tid].get('s')
         if c[0] == 'f64': return 'math.Float64frombits(%d)' % c[1]
         if c[0] == 'bool': return 'true' if c[1] else 'false'
+        if c[0] == 'str': return '"%s"' % ''.join('\\x%02x' % b for b in c[1])
+        if c[0] == 'bytes': return '[]byte(nil)' if (c[2] and not c[1]) else '[]byte{%s}' % ', '.join(str(b) for b in c[1])
         return '%s(%d)' % (tn, c[1])
 
     def lift(self, txt, tid):
@@ -212,6 +252,12 @@ class NativesReplayer:
         tt = self.v.tt
         try:
             shortpkg = self.pkgpath.split('/')[-1]
+            # Packages a replay program cannot import (internal ones; bytes, whose dependencies do not build against the
+            # host GOROOT of this sandbox): the text of the function is cut out of the override file in /repo and placed in
+            # the program itself -- it is still the repository's code, compiled by the repository's compiler.
+            inline_src = None
+            if self.pkgpath in INLINE_PKGS:
+                inline_src = cut_function(self.pkgpath, self.fname)
             allins, funcs = [], []
             for k, m in enumerate(models):
                 ins = [(n, t, self.conc(m, v, t)) for (n, t, v, isrecv) in self.params]
@@ -222,9 +268,10 @@ class NativesReplayer:
                     if tt.is_float(rt): prints.append('b%d := math.Float64bits(r%d); println("K%d R%d", uint32(b%d>>32), uint32(b%d))' % (i, i, k, i, i, i))
                     else: prints.append('println("K%d R%d", r%d)' % (k, i, i))
                 lhs = ', '.join('r%d' % i for i in range(len(self.rtids)))
-                funcs.append('func c%d() {\n\tdefer func() { if e := recover(); e != nil { println("K%d PANIC") } }()\n\t%s := %s.%s(%s)\n\t%s\n}\n' % (
-                    k, k, lhs, shortpkg, self.fname, args, '\n\t'.join(prints)))
-            imports = '"math"' if self.pkgpath == 'math' else '"math"\n\t"%s"' % self.pkgpath
+                funcs.append('func c%d() {\n\tdefer func() { if e := recover(); e != nil { println("K%d PANIC") } }()\n\t%s := %s%s(%s)\n\t%s\n}\n' % (
+                    k, k, lhs, '' if inline_src else shortpkg + '.', self.fname, args, '\n\t'.join(prints)))
+            if inline_src: funcs.append('// cut from compiler/natives/src/%s\n%s\n' % (self.pkgpath, inline_src))
+            imports = '"math"' if (self.pkgpath == 'math' or inline_src) else '"math"\n\t"%s"' % self.pkgpath
             src = 'package main\n\nimport (\n\t%s\n)\n\nvar _ = math.Float64bits\n\n%s\nfunc main() {\n%s}\n' % (
                 imports, '\n'.join(funcs), ''.join('\tc%d()\n' % k for k in range(len(models))))
             allout = run_program(src)
@@ -263,7 +310,7 @@ class NativesReplayer:
             pre = State(); pre.meta['concrete'] = True; pre.entry = pre
             binds = {}
             for (n, t, cv) in ins:
-                binds[n] = z3.fpBVToFP(z3.BitVecVal(cv[1], 64), F64) if cv[0] == 'f64' else (z3.BoolVal(cv[1]) if cv[0] == 'bool' else self.intval(cv[1], t))
+                binds[n] = self.bind(cv, t)
             envpre = SpecEnv(pre, binds, pre)
             for cl in c.get('requires'):
                 if self.decide(self.v.sev_bool(envpre, cl.expr)) is False:
